@@ -1978,6 +1978,34 @@ def placements(P, k):
     return out
 
 
+def uniform_twins(programs, every=2):
+    """twins in which every field has the same type (u8): a change that shuffles, shifts or leaks
+    between fields then still type-checks and shows up as a wrong value instead of a compile error"""
+    out = []
+    k = 0
+    for P in programs:
+        if P.canary_of is not None or P.kind == "union" or P.tags.get("no_verus"):
+            continue
+        if max([len(v.fields) for v in P.variants] + [0]) < 2:
+            continue
+        if all(f.ty == "u8" for v in P.variants for f in v.fields):
+            continue
+        k += 1
+        if k % every:
+            continue
+        Q = copy.deepcopy(P)
+        Q.tags.pop("frozen_src", None)
+        Q.pid = P.pid + "u"
+        for v in Q.variants:
+            for f in v.fields:
+                f.ty = "u8"
+        Q.generics = []
+        Q.inst = {}
+        Q.note = "uniform u8 twin of " + P.pid + ": " + P.note
+        out.append(Q)
+    return out
+
+
 def own_placements(prop, programs, n=3):
     """a few placement variants of a family's own programs, counted under that property"""
     ps = [p for p in programs if p.canary_of is None and p.kind != "union" and any(f.attrs for v in p.variants for f in v.fields)]
